@@ -98,16 +98,20 @@ Definition zremove (ms : list bytes) (z : zcoll) : zcoll * Z :=
   let z' := fold_left (fun acc m => zdel_item v z m acc) ms z in
   (zwith_size v (zsize z - num) z', num).
 
-(* zRemAll *)
+(* zRemAll: under the lazy clear of wait_compact only the size key goes; otherwise, above RangeDeleteNum
+   members, one DeleteRange over the score index [RangeStart, RangeEnd) and one over the member keys
+   [zEncodeStartSetKey, zEncodeStopSetKey) of the generation; up to RangeDeleteNum members
+   zRemRangeBytes over the whole score index (each member through zDelItem) *)
+Definition zidx_delete_range (lo hi : ebound) (idx : list zikey) : list zikey :=
+  filter (fun i => negb (in_range lo hi (fst i, snd (snd i)))) idx.
 Definition zrem_all (lazy : bool) (z : zcoll) : zcoll * Z :=
   let num := zsize z in
   if num =? 0 then (z, 0)
   else if lazy then ({| z_c := Build_coll None (c_elems (z_c z)); z_index := z_index z |}, num)
-  else
-    (* num <= RangeDeleteNum: zRemRangeBytes over the whole score index (each member through zDelItem);
-       num > RangeDeleteNum: range deletes of both key ranges.  Same effect when the two indexes agree;
-       the model takes the iterate-and-delete path (sizes above 5000 are outside the generated scope). *)
-    zremove (map snd (index_scan (zver z) (z_index z))) z.
+  else if range_delete_num <? num then
+    ({| z_c := Build_coll None (delete_range (BStart (zver z)) (BStop (zver z)) (c_elems (z_c z)));
+        z_index := zidx_delete_range (BStart (zver z)) (BStop (zver z)) (z_index z) |}, num)
+  else zremove (map snd (index_scan (zver z) (z_index z))) z.
 
 (* zRemRangeBytes over the index entries selected by sel, with offset / count *)
 Definition zrem_range_bytes (lazy : bool) (sel : score * bytes -> bool) (offset count : Z) (z : zcoll) : zcoll * reply :=
